@@ -1541,6 +1541,21 @@ theorem migrateClaims_eq_conv (ssh : Bool) (c : Option Claims) :
       cases a1 <;> cases a2 <;> cases a3 <;> simp
 
 
+/-- **conv_x509_flag_ignored.** The X.509 durations an admin-database provisioner carries are the ones in force
+    whatever its `X509.Enabled` flag says (an admin client that leaves the flag out does not silently get the
+    authority-wide durations): `claimsToCertificates` reads the `Durations` block of every `X509` block. -/
+theorem conv_x509_flag_ignored (l : LClaims) (e e' : Bool) (d : Option Dur3) :
+    toCert (some { l with x509 := some (e, d) }) = toCert (some { l with x509 := some (e', d) }) := rfl
+
+/-- … so the durations read back are exactly the block's, for every block and flag -/
+theorem conv_l2c_tls_exact (l : LClaims) (e : Bool) (d : Dur3) (c : CClaims)
+    (hx : l.x509 = some (e, some d)) (h : toCert (some l) = some c) :
+    c.d.minTLS = d.min ∧ c.d.maxTLS = d.max ∧ c.d.defTLS = d.dflt := by
+  simp only [toCert, Option.map, hx] at h
+  injection h with h
+  subst h
+  exact ⟨rfl, rfl, rfl⟩
+
 /-! ### the admin API's claim validation -/
 
 
